@@ -973,6 +973,54 @@ VARIANTS += [
     M("all-trees-constrained-leaves-only", TREES, "    return _all_trees_from_triples(leaves, triples)\n", "    return _all_trees_from_triples([leaf for leaf in leaves if any(leaf in triple for triple in triples)], triples)\n", "LEAVES-SOURCE"),
     T("twin-all-trees-leaves-listed", TREES, "    return _all_trees_from_triples(leaves, triples)\n", "    every = list(leaves)\n    return _all_trees_from_triples(every, triples)\n"),
     M("lca-strict-ancestor-through-parent", TREES, "        return self(first, second) == first and first != second", "        return second.up is not None and self.is_ancestor_of(first, second.up)", "DERIVED-QUERIES"),
+    Variant("twin-loss-colour-passed-by-caller", LAYOUT, [
+        ("    end_species: TreeNode,\n) -> GeneAnchor:", "    end_species: TreeNode,\n    color=None,\n) -> GeneAnchor:"),
+        ("    color = getattr(gene, \"color\", None)\n", ""),
+        ("                        mapping[left_gene],\n                        root_species,\n                    )", "                        mapping[left_gene],\n                        root_species,\n                        getattr(left_gene, \"color\", None),\n                    )"),
+        ("                        mapping[right_gene],\n                        root_species,\n                    )", "                        mapping[right_gene],\n                        root_species,\n                        getattr(right_gene, \"color\", None),\n                    )"),
+        ("                        mapping[left_gene],\n                        root_species.up,\n                    )", "                        mapping[left_gene],\n                        root_species.up,\n                        getattr(left_gene, \"color\", None),\n                    )"),
+        ("                        mapping[right_gene],\n                        root_species.up,\n                    )", "                        mapping[right_gene],\n                        root_species.up,\n                        getattr(right_gene, \"color\", None),\n                    )"),
+        ("                        mapping[conserv_gene],\n                        root_species.up,\n                    )", "                        mapping[conserv_gene],\n                        root_species.up,\n                        getattr(conserv_gene, \"color\", None),\n                    )"),
+    ], (), twin=True, note="the caller reads the colour of the very gene it passes, at the call"),
+    Variant("loss-colour-of-sibling", LAYOUT, [
+        ("    end_species: TreeNode,\n) -> GeneAnchor:", "    end_species: TreeNode,\n    color=None,\n) -> GeneAnchor:"),
+        ("    color = getattr(gene, \"color\", None)\n", ""),
+        ("                        mapping[left_gene],\n                        root_species,\n                    )", "                        mapping[left_gene],\n                        root_species,\n                        getattr(right_gene, \"color\", None),\n                    )"),
+        ("                        mapping[right_gene],\n                        root_species,\n                    )", "                        mapping[right_gene],\n                        root_species,\n                        getattr(right_gene, \"color\", None),\n                    )"),
+        ("                        mapping[left_gene],\n                        root_species.up,\n                    )", "                        mapping[left_gene],\n                        root_species.up,\n                        getattr(left_gene, \"color\", None),\n                    )"),
+        ("                        mapping[right_gene],\n                        root_species.up,\n                    )", "                        mapping[right_gene],\n                        root_species.up,\n                        getattr(right_gene, \"color\", None),\n                    )"),
+        ("                        mapping[conserv_gene],\n                        root_species.up,\n                    )", "                        mapping[conserv_gene],\n                        root_species.up,\n                        getattr(conserv_gene, \"color\", None),\n                    )"),
+    ], ("LOSS-COLOR-OWN",)),
+    # ---- eighth round
+    M("layout-empty-subtree-fork-unset", LAYOUT, "            # Empty subtree\n            fork_thickness = 0\n", "            # Empty subtree\n", "BRANCH-COMPLETE-ASSIGN"),
+    T("twin-layout-fork-thickness-preset", LAYOUT, "            # Empty subtree\n            fork_thickness = 0\n", "            # Empty subtree\n            fork_thickness = 0\n            spare_eq = fork_thickness\n"),
+    M("uspfs-kinds-parameter", USPFS, "    for kind in SyntenyAssignment:\n        table[root_object][root_species][kind].update(", "    for kind in [SyntenyAssignment.LCA] + ([SyntenyAssignment.INHERIT] if root_object.up is not None else []):\n        table[root_object][root_species][kind].update(", "KINDS-COMPLETE"),
+    T("twin-uspfs-kinds-listed", USPFS, "    for kind in SyntenyAssignment:\n        table[root_object][root_species][kind].update(", "    for kind in list(SyntenyAssignment):\n        table[root_object][root_species][kind].update("),
+    M("cli-json-strict", CLI, "        json.dump(result.to_dict(), args.output)", "        json.dump(result.to_dict(), args.output, allow_nan=False)", "JSON-INFINITE-COSTS"),
+    T("twin-cli-json-allow-nan", CLI, "        json.dump(result.to_dict(), args.output)", "        json.dump(result.to_dict(), args.output, allow_nan=True)"),
+    Variant("to-dict-ordered-only-when-true", MODEL, [
+        ("        return {\n            **super().to_dict(),\n            \"syntenies\": serialize_synteny_mapping(self.syntenies),\n            \"ordered\": self.ordered,\n        }\n", "        result = {\n            **super().to_dict(),\n            \"syntenies\": serialize_synteny_mapping(self.syntenies),\n        }\n\n        if self.ordered:\n            result[\"ordered\"] = True\n\n        return result\n"),
+    ], ("DICT-KEYS",)),
+    Variant("twin-to-dict-ordered-only-when-false", MODEL, [
+        ("        return {\n            **super().to_dict(),\n            \"syntenies\": serialize_synteny_mapping(self.syntenies),\n            \"ordered\": self.ordered,\n        }\n", "        result = {\n            **super().to_dict(),\n            \"syntenies\": serialize_synteny_mapping(self.syntenies),\n        }\n\n        if not self.ordered:\n            result[\"ordered\"] = False\n\n        return result\n"),
+    ], (), twin=True, note="the reader's default (True) is what an absent key means"),
+    M("spfs-root-hosts-above-lca", SPFS, "                srec_input_bin.species_lca.tree.traverse(),\n                desc=\"Generate solutions\",", "                [srec_input_bin.species_lca.tree],\n                desc=\"Generate solutions\",", "RESULT-SCOPE"),
+    M("layout-trunk-dist-clamped", LAYOUT, "                left_trunk_dist = left_info[\"size\"].w - left_info[\"trunk\"].right().x\n", "                left_trunk_dist = max(0, left_info[\"size\"].w - left_info[\"trunk\"].right().x)\n", "SUBTREE-BOX", "SIGMA-INVARIANCE"),
+    M("rmq-refuses-end-of-data", "utils/range_min_query.py", "        if start >= stop:\n            return None\n", "        if start >= stop or stop >= len(self.sparse_table[0]):\n            return None\n", "RMQ-WINDOWS"),
+    T("twin-rmq-bounds-check-exact", "utils/range_min_query.py", "        if start >= stop:\n            return None\n", "        if start >= stop:\n            return None\n\n        if start < 0 or stop > len(self.sparse_table[0]):\n            raise IndexError(start, stop)\n"),
+    M("lca-rmq-without-last", TREES, "RangeMinQuery(self.traversal)", "RangeMinQuery(self.traversal[:-1])", "EULER-INDEX"),
+    M("mask-prefix-shortcut", SUBS, "    child_i = 0\n    mask = 0\n", "    if isinstance(parent, str) and parent.startswith(child):\n        return subseq_complete(child)\n\n    child_i = 0\n    mask = 0\n", "BIT-ORDER"),
+    T("twin-mask-empty-child-shortcut", SUBS, "    child_i = 0\n    mask = 0\n", "    child_i = 0\n    mask = 0\n\n    if not child:\n        return mask\n"),
+    M("binarize-collapses-zero-branches", TREES, "    subtrees = {}\n\n    for node in tree.traverse(\"postorder\"):\n        if node.is_leaf():\n            subtrees[node] = node", "    subtrees = {}\n    tree = tree.copy()\n\n    for node in tree.get_descendants():\n        if not node.is_leaf() and node.dist == 0:\n            node.delete()\n\n    for node in tree.traverse(\"postorder\"):\n        if node.is_leaf():\n            subtrees[node] = node", "TREE-AS-GIVEN"),
+    M("onetree-effective-triples-only", TREES, "            triple for triple in triples if all(leaf in group_leaves for leaf in triple)\n        ]\n\n        subtree = tree_from_triples(", "            triple for triple in triples[1:] if all(leaf in group_leaves for leaf in triple)\n        ]\n\n        subtree = tree_from_triples(", "TRIPLES-RECURSION"),
+    M("alltrees-cherry-count-screen", TREES, "    if tree_from_triples(leaves, triples) is None:\n        return []\n\n    return _all_trees_from_triples(", "    if len(leaves) > 2 and len({(l, r) for l, r, _ in triples}) >= len(leaves) - 1:\n        return []\n\n    if tree_from_triples(leaves, triples) is None:\n        return []\n\n    return _all_trees_from_triples(", "TRIPLES-RECURSION"),
+    M("layout-root-lineage-losses", LAYOUT, "                state[\"branches\"][root_gene][\"color\"] = root_gene.color\n\n\ndef _layout_branches(", "                state[\"branches\"][root_gene][\"color\"] = root_gene.color\n\n    _add_losses(layout_state, gene_tree, mapping[gene_tree], None)\n\n\ndef _layout_branches(", "LOSS-MARKERS"),
+    M("entry-ctor-resets-both-policies", DP, "            self._value = value\n            self._infos = set(infos)\n            self._merge_policy = (\n                merge_policy if merge_policy is not None else MergePolicy.MIN\n            )", "            if merge_policy is None or retention_policy is None:\n                merge_policy = MergePolicy.MIN\n                retention_policy = RetentionPolicy.NONE\n\n            self._value = value\n            self._infos = set(infos)\n            self._merge_policy = (\n                merge_policy if merge_policy is not None else MergePolicy.MIN\n            )", "ENTRY-CTOR"),
+    M("evaluator-break-on-single-family", MODEL, "                event = self.node_event(node)\n                sub_mask = masks[node]\n", "                event = self.node_event(node)\n                sub_mask = masks[node]\n\n                if sub_mask & (sub_mask - 1) == 0:\n                    break\n", "EVAL-NO-SHORTCUT"),
+    M("thl-cheaper-orientation-only", REC, "    table[root_node][root_species].update(\n        *min_ltl.combine(min_rtr, spe_combinator),\n        *min_ltr.combine(min_rtl, spe_combinator),\n    )", "    straight = min_ltl.combine(min_rtr, spe_combinator)\n    crossed = min_ltr.combine(min_rtl, spe_combinator)\n    table[root_node][root_species].update(\n        *(crossed if crossed.value() < straight.value() else straight)\n    )", "CANDIDATE-GUARDS"),
+    M("from-dict-leaf-mapping-through-names", MODEL, "            leaf_object_species = parse_tree_mapping(\n                object_tree, species_tree, data[\"leaf_object_species\"]\n            )", "            leaf_object_species = get_species_mapping(object_tree, species_tree)\n            leaf_object_species.update(parse_tree_mapping(\n                object_tree, species_tree, dict(data[\"leaf_object_species\"])\n            ))", "FIELD-SOURCE"),
+    M("spfs-prec-graph-maximal-leaves", SPFS, "            prec_graph = _make_prec_graph(leaf_syntenies)", "            prec_graph = _make_prec_graph({n: s for n, s in leaf_syntenies.items() if len(s) > 1})", "ROOT-ORDER-SOURCE"),
+    M("tikz-layout-label-newlines-late", LAYOUT, "                ).replace(\"\\n\", \"\\\\\\\\\")\n                if root_gene in syntenies", "                )\n                if root_gene in syntenies", "LABEL-LINEBREAKS"),
     M("update-returns-in-loop", DP, "                self._value = value\n\n    update.__doc__", "                self._value = value\n                return\n\n    update.__doc__", "UPDATE-ALL-CANDIDATES"),
 ]
 
@@ -983,6 +1031,7 @@ CANARY_RULES = (
     "COPY-BEFORE-MUTATE", "FRESH-ATTACH", "FRESH-STARTS", "ESCAPE-TAINT", "PREORDER-STATE", "TABLE-FRESH-CELLS",
     "NONE-SENTINEL-TRUTH", "OPTIONAL-CHECKED", "NO-TOPOLOGY-WRITE", "ELEMENT-UPDATE", "RESULT-UNCONDITIONAL",
     "FIELD-SOURCE", "SORT-KEY-ALIGNED", "ENTRY-OWNS-TAGS",
+    "KINDS-COMPLETE", "TREE-AS-GIVEN", "BRANCH-COMPLETE-ASSIGN", "TRIPLES-RECURSION", "JSON-INFINITE-COSTS", "LABEL-LINEBREAKS", "LOSS-COLOR-OWN",
     "PARSE-READONLY", "GEOM-NO-ORDER", "GRAPH-AS-GIVEN", "EVAL-NO-SHORTCUT", "CLOSURE-LATE-BINDING", "REFINEMENT-PAIRING", "KIND-ENUM-BASE", "TAG-TEST-CONSISTENT", "ROOT-CONTENT",
     "KEY-GUARD", "HASH-IDENTITY", "COST-GUARD", "COPY-FAITHFUL", "NAME-AS-KEY", "ENUM-NO-TRUNCATION", "SET-ALGEBRA-ARGS",
     "LEAF-MAP-DOMAIN", "WIDTH-VERBATIM", "TOPO-VERDICT", "ROOT-ORDER-SOURCE",
